@@ -94,6 +94,10 @@ def c01(tier, seed):
     from . import broker_trace
     broker_trace.validate(rep, "trace-s5f5g1", ["S5", "F5", "G1"], "paid", {"nlv", "pos"},
                           400 if tier == "quick" else 5000, 25 if tier == "quick" else 40, seed)
+    # code -> spec at the level of the whole environment: long random episodes of a real TradingEnv on a dyadic grid,
+    # validated line by line by TLC (EnvLedgerTrace.tla)
+    from . import envledger_check
+    envledger_check.validate(rep, "C01", 8 if tier == "quick" else 120, seed, tier)
     return rep.finish()
 
 
@@ -109,6 +113,10 @@ def c05(tier, seed):
     from . import broker_trace
     broker_trace.validate(rep, "trace-s5f5g1", ["S5", "F5", "G1"], "paid", {"mrg"},
                           400 if tier == "quick" else 5000, 25 if tier == "quick" else 40, seed)
+    # code -> spec at the level of the whole environment: long random episodes of a real TradingEnv on a dyadic grid,
+    # validated line by line by TLC (EnvLedgerTrace.tla)
+    from . import envledger_check
+    envledger_check.validate(rep, "C05", 8 if tier == "quick" else 120, seed, tier)
     return rep.finish()
 
 
@@ -185,6 +193,13 @@ def c03(tier, seed):
         reqs_b = [req({"S2": F(1), "G1": F(-1)}), req({"G1": F(3, 2)}), req({"S2": h}), req({"S2": F(-1)}),
                   req({"S2": F(2), "G1": F(5)}, measure="lots"), req({})]
         ms.append(model("reb-b", ["S2", "G1"], ["quote", "trade", "rebal"], 5, fees="dy", dqs=(-1, 2), reqs=reqs_b, maxrebal=2, **kw))
+    # adjustments that are tiny RELATIVE to what is held (a few lots on several hundred thousand): a needed trade is a needed
+    # trade whatever the size of the position it adjusts
+    ms.append(model("lots-large", ["S1", "H2"], ["quote", "rebal"], 4, fees="free", bids=(8,), spreads=(0,), deposit=F(4000000),
+                    reqs=[req({"S1": F(393216), "H2": F(-131072)}, measure="lots"),
+                          req({"S1": F(393219), "H2": F(-131075)}, measure="lots"),
+                          req({"S1": F(786439, 2)}, measure="lots", fractional=False)],
+                    maxrebal=3, invariants=inv, properties=props))
     for m in ms:
         explore_and_replay(rep, m, clauses_of("C03"))
     # longer random behaviours (at most two rebalances each, so that exact rationals stay within TLC's integers)
@@ -202,6 +217,10 @@ def c03(tier, seed):
     # reached in its lead although that contract is also listed, with a zero of its own
     from . import envfull_check
     envfull_check.run_models(rep, [envfull_check.chain_members_model()], {"pos", "track_trades"})
+    # code -> spec at the level of the whole environment: long random episodes of a real TradingEnv on a dyadic grid,
+    # validated line by line by TLC (EnvLedgerTrace.tla)
+    from . import envledger_check
+    envledger_check.validate(rep, "C03", 8 if tier == "quick" else 120, seed, tier)
     return rep.finish()
 
 
@@ -250,6 +269,13 @@ def c12(tier, seed):
                     reqs=[req({"S1": F(1, 2)}, fractional=False), req({"S1": F(1, 4), "H2": F(-1, 4)}, thr=t16),
                           req({"S1": F(2), "H2": F(-1)}, measure="lots", fractional=False)],
                     maxrebal=3, invariants=inv, properties=props))
+    # adjustments that are tiny RELATIVE to what is held (a few lots on several hundred thousand): a needed trade is a needed
+    # trade whatever the size of the position it adjusts
+    ms.append(model("lots-large", ["S1", "H2"], ["quote", "rebal"], 4, fees="free", bids=(8,), spreads=(0,), deposit=F(4000000),
+                    reqs=[req({"S1": F(393216), "H2": F(-131072)}, measure="lots"),
+                          req({"S1": F(393219), "H2": F(-131075)}, measure="lots"),
+                          req({"S1": F(786439, 2)}, measure="lots", fractional=False)],
+                    maxrebal=3, invariants=inv, properties=props))
     if tier != "quick":
         ms.append(model("thr-f4", ["S2", "F4"], ["quote", "trade", "rebal"], 5, fees="free", bids=(8, 12), spreads=(0, 4),
                         dqs=(-1, 2),
@@ -270,4 +296,8 @@ def c12(tier, seed):
                        [{"S1": F(3)}, {"S1": F(3, 2)}, {"S1": F(1, 2), "F4": F(-5, 2)}, {}], lats=(0,), delays=(0,), fees="free",
                        maxsteps=4, measure="lots", fractional=False, invariants=["LedgerReplay"])
     ef.run_models(rep, [em], {"pos", "track_trades"})
+    # code -> spec at the level of the whole environment: long random episodes of a real TradingEnv on a dyadic grid,
+    # validated line by line by TLC (EnvLedgerTrace.tla)
+    from . import envledger_check
+    envledger_check.validate(rep, "C12", 8 if tier == "quick" else 120, seed, tier)
     return rep.finish()
